@@ -374,7 +374,8 @@ class Representation(ObjectWithFields):
             try:
                 if seg.duration != s_node.duration:
                     output_s_node(s_node)
-                    s_node.count = 0
+                    # start a new entry: the one just listed must keep its values
+                    s_node = SegmentTimelineElement()
                 s_node.duration = seg.duration
                 s_node.count += 1
             except AttributeError:
